@@ -328,7 +328,12 @@ func c04ScriptedUpload(e *Env) {
 	mk := func(seed, blocks int) []byte { return Body(seed, blocks*bs-t.Choose(bs)) }
 	bodies := [][]byte{mk(401, 2+t.Choose(4)), mk(402, 2+t.Choose(4))}
 	sameToken := t.Chance(2, 3)
-	e.Logf("cfg transport=%s block=%d sizes=%d,%d sameToken=%v", tr, bs, len(bodies[0]), len(bodies[1]), sameToken)
+	noToken := t.Chance(1, 6)
+	if noToken {
+		sameToken = true
+		e.Probe("upload.zeroLengthToken")
+	}
+	e.Logf("cfg transport=%s block=%d sizes=%d,%d sameToken=%v noToken=%v", tr, bs, len(bodies[0]), len(bodies[1]), sameToken, noToken)
 	e.NonTrivial()
 	mid := uint16(2000)
 	block := func(bi, num int, tok []byte) *WMsg {
@@ -358,6 +363,9 @@ func c04ScriptedUpload(e *Env) {
 		tok := []byte{0x51, byte(bi)}
 		if sameToken {
 			tok = []byte{0x51, 0x00}
+		}
+		if noToken {
+			tok = nil // a zero-length token is a token like any other (RFC 7252 5.3.1)
 		}
 		n := nb(bi)
 		inOrder := true
@@ -391,7 +399,11 @@ func c04ScriptedUpload(e *Env) {
 					e.Fault("block.foreignToken")
 					// the foreign token is unrelated, or differs from the transfer's token only in length (a zero byte
 					// more or less); the block carries the other body's data, so merging it would show
-					ft := [][]byte{{0x7b, 0x7b}, append(append([]byte(nil), tok...), 0x00), append([]byte{0x00}, tok...), tok[:len(tok)-1]}[t.Choose(4)]
+					shorter := []byte{0x7b}
+					if len(tok) > 0 {
+						shorter = tok[:len(tok)-1]
+					}
+					ft := [][]byte{{0x7b, 0x7b}, append(append([]byte(nil), tok...), 0x00), append([]byte{0x00}, tok...), shorter}[t.Choose(4)]
 					ob := 1 - bi
 					fn := num
 					if fn >= nb(ob)-1 {
